@@ -13,6 +13,7 @@ head = open(demo).readline()
 m = re.search(r'([a-z/]*drpc[a-z]*|internal/[a-z]+)/', head)
 pkg = m.group(1).split('/')[-1] if m else 'drpcconn'
 if m and m.group(1).startswith('internal'): pkg = m.group(1)
+if 'internal/integration' in head: pkg = 'internal/integration'
 t = re.search(r"-run\s+'?\"?([A-Za-z0-9_|^$]+)", head)
 test = t.group(1) if t else 'TestDemo%s' % n
 print('pkg', pkg, 'test', test)
